@@ -16,7 +16,7 @@ from lcsa.lin import Lin, dnf, vertices, feasible, interior_nonempty
 from lcsa.model import Undecided, unparse, const_number
 from lcsa.ref import Pair
 from lcsa.dt import conj_formula
-from lcsa import bind
+from lcsa import bind, inline
 from props.common import SEQ, SP, SEQ_PATH
 
 PLOTS = "plots.py"
@@ -401,7 +401,7 @@ def _sinks(ck, prog):
                           note="the coordinate is changed before plt.scatter: the sequence is no longer drawn where it lies")
     ck.ob("PROV-sink", c2, got == ["x_list", "y_list", "label_list"], expected="point i: scatter(x_list[i], y_list[i]); annotate(label_list[i])", found=got, slot="scatter", where=g.loc(lp))
     for name in ("finalize_DasPappu", "finalize_uversky"):
-        h = prog.fn(PLT, name)
+        h = inline.inlined(prog, prog.fn(PLT, name))           # statements moved into a helper of the module are read where they run
         c3 = h.mod.relpath + ":" + h.qual
         want = {"plt.title": ("title", None), "plt.xlim": ("xLim", 1), "plt.ylim": ("yLim", 1)}
         # MUST: the title and both axis limits are set on EVERY way out of the finaliser (an early return for `legendOn=False`, say, must not
@@ -570,7 +570,7 @@ def _num(x):
 
 
 def _polygons(ck, prog):
-    f = prog.fn(PLT, "finalize_DasPappu")
+    f = inline.inlined(prog, prog.fn(PLT, "finalize_DasPappu"))
     construct = f.mod.relpath + ":" + f.qual
     fills = []          # (handle name, [(x, y)], node, legend text or None)
     table_texts = None
@@ -661,9 +661,24 @@ def _polygons(ck, prog):
     found = None
     ck.shape(len(lg) == 1 and len(lg[0].args) >= 2, "finalize_DasPappu: one plt.legend(handles, texts, ...)", f.loc())
     handles = texts = None
-    if isinstance(lg[0].args[0], ast.List) and isinstance(lg[0].args[1], ast.List):
-        handles = [unparse(e) for e in lg[0].args[0].elts]
-        texts = [e.value if isinstance(e, ast.Constant) else "" for e in lg[0].args[1].elts]
+
+    def _lit(a):
+        # a literal list, or a local bound exactly once to one (and never edited in place)
+        if isinstance(a, ast.Name):
+            binds = [n for n in ast.walk(f.node) if isinstance(n, (ast.Assign, ast.AugAssign, ast.For, ast.comprehension))
+                     and any(isinstance(x, ast.Name) and x.id == a.id for t in (n.targets if isinstance(n, ast.Assign) else [n.target]) for x in ast.walk(t))]
+            edits = [n for n in ast.walk(f.node) if isinstance(n, ast.Attribute) and isinstance(n.value, ast.Name) and n.value.id == a.id and isinstance(n.ctx, ast.Load)
+                     and n.attr in ("append", "extend", "insert", "pop", "remove", "reverse", "sort", "clear")]
+            stores = [n for n in ast.walk(f.node) if isinstance(n, ast.Subscript) and isinstance(n.value, ast.Name) and n.value.id == a.id and isinstance(n.ctx, (ast.Store, ast.Del))]
+            if len(binds) == 1 and isinstance(binds[0], ast.Assign) and len(binds[0].targets) == 1 and isinstance(binds[0].targets[0], ast.Name) and not edits and not stores \
+                    and a.id not in f.params():
+                return _lit(binds[0].value)
+            return None
+        return a if isinstance(a, ast.List) else None
+    l0, l1 = _lit(lg[0].args[0]), _lit(lg[0].args[1])
+    if l0 is not None and l1 is not None:
+        handles = [unparse(e) for e in l0.elts]
+        texts = [e.value if isinstance(e, ast.Constant) else "" for e in l1.elts]
     elif table_texts and isinstance(lg[0].args[0], ast.Name):
         # handles accumulated row by row, texts taken from the same rows: the pairing is by construction of the table
         appended = [n for n in ast.walk(f.node) if isinstance(n, ast.Call) and getattr(n.func, "attr", "") == "append" and unparse(n.func.value) == lg[0].args[0].id]
@@ -722,6 +737,19 @@ def _linear(ck, prog):
             f = prog.fn(SP, "SequenceParameters.%s_linear%s" % (kind, nm))
             c = f.mod.relpath + ":" + f.qual
             calls = _calls(prog, f, lambda cc: cc.mod.rel == PLT)
+            via = None
+            if not calls:
+                # a driver of the wrapper's own class makes the backend call for all four profiles: two forwarding hops instead of one
+                own = _calls(prog, f, lambda cc: cc.cls == f.cls and cc.mod is f.mod)
+                if len(own) == 1 and len(_calls(prog, own[0][1], lambda cc: cc.mod.rel == PLT)) == 1:
+                    via = own[0]
+                    forward(ck, prog, f, via[0], required=[p for p in f.params() if p in ("blobLen", "getFig", "filename")])
+                    _, hop = bind.bind(prog, f, via[0])
+                    if kind == "show":
+                        ck.shape(all(isinstance(n, ast.Return) and n.value is via[0] for n in ast.walk(f.node) if isinstance(n, ast.Return))
+                                 and any(isinstance(n, ast.Return) for n in ast.walk(f.node)), "%s: returns what its driver returns" % f.name, f.loc())
+                    f = via[1]
+                    calls = _calls(prog, f, lambda cc: cc.mod.rel == PLT)
             ck.shape(len(calls) == 1, "%s: one call into the plotting backend" % f.name, f.loc())
             call, callee = calls[0]
             ok = callee.name == "%s_linearplot" % kind
@@ -729,6 +757,9 @@ def _linear(ck, prog):
                 forward(ck, prog, f, call, required=[p for p in f.params() if p in ("blobLen", "getFig", "filename")])
                 _, bnd = bind.bind(prog, f, call)
                 bf = bnd.get("build_fun")
+                if via is not None and isinstance(bf, ast.Name) and bf.id in f.params() and not [n for n in ast.walk(f.node) if isinstance(n, ast.Name) and n.id == bf.id
+                                                                                                 and isinstance(n.ctx, ast.Store)]:
+                    bf = hop.get(bf.id)          # the builder the wrapper handed to the driver
                 ck.shape(isinstance(bf, (ast.Attribute, ast.Name)) and prog.has_fn(PLT, unparse(bf).split(".")[-1]),
                          "%s: build_fun is a reference to a plotting builder" % f.name, f.loc(call))
                 ok = unparse(bf).split(".")[-1] == b and unparse(bnd.get("SeqObj")) == "self.SeqObj"
